@@ -42,6 +42,8 @@ class Tracker:
         self.blank_fix = blank_fix   # True: the specification (a transient display leaves nothing); False: what the as-found code (before fix bd10e80) leaves
         self.reset_shape = RESET_SHAPE if reset_shape is None else reset_shape
         self.P = []            # printed lines, in order
+        self.Pw = []           # the same as ROWS of a terminal that wraps at its right margin (a line wider than the console — crop=False,
+        #                        soft_wrap=True, console.out — takes several rows; identical to P when every line fits)
         self.F = []            # frame on display (as the user should see it)
         self.phase = "idle"    # idle | live | stopped
         self.lines = list(cfg.init) if cfg.kind == "live" else []   # current renderable (Live)
@@ -63,6 +65,13 @@ class Tracker:
         self.buf = {False: "", True: ""}   # text pending (no final new line) in the redirected stdout / stderr
         self.pending_at_stop = False
         self.transient_ok = True   # every transient stop so far left one free row for its line feed
+
+    def emit(self, lines):
+        """`lines` are printed: they join the printed lines; on the screen each takes the rows auto-wrap gives it."""
+        lines = list(lines)
+        self.P.extend(lines)
+        for l in lines:
+            self.Pw.extend(wrap_rows(l, self.width))
 
     # the frame the user is entitled to see for the current renderable
     def frame(self, final=False):
@@ -105,7 +114,7 @@ class Tracker:
     def finish_session(self):
         """What a stopped display left on the screen is finished output from now on."""
         if self.phase == "stopped" and self.after_stop is not None:
-            self.P += self.after_stop
+            self.emit(self.after_stop)
             self.F = []
             self.after_stop = None
 
@@ -136,7 +145,7 @@ class Tracker:
             err, lines, tail = op[1], op[2], op[3]
             if live and self.cfg.terminal and (self.cfg.redirect_stderr if err else self.cfg.redirect_stdout):
                 if lines:
-                    self.P.extend([self.buf[err] + lines[0]] + list(lines[1:]))
+                    self.emit([self.buf[err] + lines[0]] + list(lines[1:]))
                     self.buf[err] = tail
                     self.display()
                 else:
@@ -147,7 +156,7 @@ class Tracker:
                 for e in (False, True):
                     if self.buf[e]:
                         self.pending_at_stop = True
-                        self.P.append(self.buf[e])
+                        self.emit([self.buf[e]])
                         self.buf[e] = ""
                         self.display()      # printed like any other line: the display is redrawn below it
                 self.rebuild()
@@ -169,11 +178,11 @@ class Tracker:
                 if self.reset_shape:
                         self.max_h = 0
         elif k in ("B", "BL"):
-            self.P.append("")
+            self.emit([""])
             if live:
                 self.display()
         elif k == "P":
-            self.P.extend(op[3])
+            self.emit(op[3])
             if live:
                 self.display()
         elif k == "R":
@@ -232,6 +241,45 @@ class Tracker:
         return True
 
 
+def wrap_rows(line, width):
+    """The rows a terminal with auto-wrap at `width` cells shows for one written line (deferred wrap: a row may be
+    filled exactly; a double-width character that does not fit any more goes to the next row)."""
+    rows, cur, col = [], "", 0
+    for ch in line:
+        w = term.wcwidth(ch)
+        if w <= 0:
+            continue
+        if col + w > width and col > 0:
+            rows.append(cur)
+            cur, col = "", 0
+        cur += ch
+        col += w
+    rows.append(cur)
+    return rows
+
+
+STYLED_STREAMS = []   # real streams that carry SGR / OSC 8 sequences (filled by run_history, consumed by styled_stream_cases)
+STYLED_CAP = 900
+
+
+def styled_stream_cases(ctx):
+    """`styles_are_zero_width` / `live_screen_styled` on real rich: for every styled stream the real objects wrote,
+    (a) direct evaluation on the Python screen oracle: replaying the stream and replaying its style-free normal form leave
+    the same rows, cursor and visibility; (b) Lean `plainOps` == Python `plain_ops` on the stream (the hypothesis of the
+    styled theorems is what `live_run` compares); (c) Lean `replay` of the stream WITH its style operations == the oracle."""
+    for H, W, chars in STYLED_STREAMS:
+        toks = term.tokenize(chars)
+        a = term.Screen(height=H, width_fn=term.wcwidth).feed(toks)
+        b = term.Screen(height=H, width_fn=term.wcwidth).feed(term.plain_ops(toks))
+        same = (a.text_rows(), a.row, a.col, a.visible) == (b.text_rows(), b.row, b.col, b.visible)
+        ctx.check(same, "styles are zero-width", (H, chars), f"with styles {a.text_rows()!r} @({a.row},{a.col}), without {b.text_rows()!r} @({b.row},{b.col})")
+        senc = L.enc_tokens_styled(toks)
+        ctx.case("term_plain", [senc], L.enc_tokens(toks), shape="styled-stream")
+        ctx.case("term_replay", [H, senc], enc_str_list(a.text_rows()) + f";{a.row};{a.col};{enc_bool(a.visible)}", shape="styled-stream")
+        ctx.note("styled_stream:sgr-inside-line" if any(x[0] == "T" and y[0] == "SGR" and z[0] == "T" for x, y, z in zip(toks, toks[1:], toks[2:])) else "styled_stream:sgr-between-lines")
+    ctx.flush()
+
+
 def trim(rows):
     rows = [r.rstrip(" ") for r in rows]
     while rows and rows[-1] == "":
@@ -241,7 +289,7 @@ def trim(rows):
 
 def screen_ok(cfg, scr, tr):
     """The executable statement of `live_screen` on the real output."""
-    want = tr.P + tr.F
+    want = tr.Pw + tr.F
     got = scr.text_rows()
     if cfg.kind == "live":
         # exact: printed ++ frame ++ blank rows (trailing spaces of printed lines are part of the line)
@@ -297,7 +345,7 @@ def run_history(ctx, cfg, ops, faults=None, styled=False, evaluate=True, tag="")
             toks = term.tokenize(chars)
             per_op.append(err + ";" + L.enc_tokens(toks))
             written.append(chars)
-            top_before = len(tr.P)
+            top_before = len(tr.Pw)
             scr.mark()
             clamped0 = scr.clamped
             scr.feed(toks)
@@ -366,6 +414,8 @@ def run_history(ctx, cfg, ops, faults=None, styled=False, evaluate=True, tag="")
         ctx.note("op:" + op[0] + (":" + op[2] if op[0] == "P" else ""))
     ctx.note(f"len:{min(len(ops) // 5 * 5, 40)}")
     tr.spins = spins
+    if len(STYLED_STREAMS) < STYLED_CAP and "\x1b[" in "".join(written) and any(t[0] in ("SGR", "OSC8") for w in written for t in term.tokenize(w)):
+        STYLED_STREAMS.append((cfg.height, cfg.width, "".join(written)))
     if evaluate and fenc == "-" and not cfg.terminal and cfg.kind == "live":
         _file_check(ctx, cfg, ops, "".join(written))
     return "".join(written), ops, tr
@@ -441,7 +491,7 @@ def _passes_with(cfg, ops, replace_bare, reset_shape, blank=False, flush=False, 
                 if cfg.kind != "progress":
                     s.live_obj().vertical_overflow = cfg.overflow
             scr.mark()
-            top_before = len(tr.P)
+            top_before = len(tr.Pw)
             scr.write(chars)
             if err == "err:KeyError":
                 continue
@@ -610,6 +660,51 @@ def user_pool(W):
 LONG = "abcdefghijklmnopqr"
 
 
+def opt_texts(W):
+    """Texts for the print / log option variants: one representative of every class the option handling branches on —
+    short; just under / exactly / just over the console width; much longer (one word, and words that wrap); double-width
+    text that straddles the edge; markup + emoji code + highlightable tokens; two lines."""
+    return [
+        "hi there",
+        "x" * (W - 2),
+        "w" * W,
+        "ab " * ((W + 4) // 3),
+        "L" * (2 * W + 3),
+        "日本語 の " + "あ" * (W // 2),
+        "[bold]mark[/bold] :smiley: 1 'q'",
+        "two\nlines " + "y" * (W - 7),
+    ]
+
+
+def option_print_cases(ctx, quick):
+    """Bounded-exhaustive: every print / log option variant (lib_live.PRINT_HOWS) x every text class x Live / Progress
+    (three tasks) / Status x transient, once right after a refresh and once more after the frame changed — correspondence
+    with the model (told what a console without display writes for the same call) and the screen oracle after every operation."""
+    n = 0
+    screens = ((20, 5),) if quick else ((20, 5), (12, 4), (40, 6))
+    for (W, H) in screens:
+        texts = opt_texts(W)
+        for kind, transient in (("live", False), ("live", True), ("progress", False), ("progress", True), ("status", True)):
+            for hi, how in enumerate(L.PRINT_HOWS):
+                for ti, text in enumerate(texts):
+                    lines = text.split("\n")
+                    color = "standard" if (hi + ti + transient) % 2 else None      # with and without a colour system (no SGR at all without)
+                    p = ("P", lines, how)
+                    q = ("P", [texts[(ti + 3) % len(texts)].split("\n")[0]], how)
+                    if kind == "live":
+                        cfg = L.Cfg(kind, transient, W, H, overflow="ellipsis", init=["F1", "F2"], color=color)
+                        ops = [("S",), ("R",), p, ("U", ["G1", "G2", "G3"], True), q, ("X",)]
+                    elif kind == "progress":
+                        cfg = L.Cfg(kind, transient, W, H, color=color)
+                        ops = [("A", "ab", True, 100), ("A", "cdef", True, 5), ("S",), ("A", "g", True, 50), p, ("V", 0, 3), q, ("X",)]
+                    else:
+                        cfg = L.Cfg(kind, transient, W, H, init=["work"], color=color)
+                        ops = [("S",), ("R",), p, ("U", ["more", "lines"], True), q, ("X",)]
+                    run_history(ctx, cfg, ops, styled=(n % 3 == 0), tag="options")
+                    n += 1
+    ctx.note("option_print_sessions", n)
+
+
 def rand_ops(rng, cfg, n, allow_bare, session=True, split_writes=True, resize=True):
     """Seeded structured history.  `session`: start early, stop last (mostly); otherwise anything goes."""
     W, H = cfg.width, cfg.height
@@ -639,6 +734,12 @@ def rand_ops(rng, cfg, n, allow_bare, session=True, split_writes=True, resize=Tr
             continue
         if r < 0.30:
             lines, how = rng.choice(up)
+            if rng.random() < 0.3:
+                # print / log OPTION variety: style=, justify=, end=, soft_wrap, crop=False, no_wrap, overflow, markup / highlight /
+                # emoji toggles, several objects + sep, console.log(style= / justify=), console.out, console.rule — on texts near and
+                # beyond the console width (the model is told what a console without display writes for the same call)
+                how = rng.choice(sorted(L.PRINT_HOWS))
+                lines = rng.choice(opt_texts(curw if rng.random() < 0.7 else W)).split("\n")
             if how == "log" and rng.random() < 0.6:
                 how = "seg"
             if how in ("py", "pye") and pend[how == "pye"] + len(lines[0]) > curw:
@@ -811,6 +912,7 @@ def make_cfg(rng, kind, transient, ov, W, H, vary=True, consoles=False):
 
 def run(ctx):
     rng = ctx.rng
+    del STYLED_STREAMS[:]
     ctx.assumptions += [
         "terminal = the VT100 subset of harness/term.py / Model/Term.lean (text, LF with ONLCR, CR, CUU n, EL 2, DECTCEM, SGR, OSC 8), no auto-wrap, window of `height` rows over an unbounded scroll-back; a double-width character occupies two cells",
         "consoles: terminal (force_terminal), dumb terminal (TERM=dumb), file (not a terminal); not Jupyter, not legacy Windows; auto_refresh=False (threads are C11's subject); the screen theorems are about terminals that are not dumb with the display not disabled (Cfg.plain)",
@@ -856,6 +958,10 @@ def run(ctx):
                 run_history(ctx, cfg, pre + [("S",)] + list(body) + [("X",)], tag="exhaustive")
                 n_ex += 1
     ctx.note("exhaustive_sessions", n_ex)
+    ctx.flush()
+
+    # ---- 1b. bounded-exhaustive print / log option variants under every kind of display
+    option_print_cases(ctx, ctx.quick)
     ctx.flush()
 
     # ---- 2. seeded random sessions up to 40 operations, evaluated after every operation
@@ -911,6 +1017,9 @@ def run(ctx):
         ctx.case("term_replay", [H, L.enc_tokens(toks)], enc_str_list(scr.text_rows()) + f";{scr.row};{scr.col};{enc_bool(scr.visible)}", shape="synthetic")
     ctx.flush()
 
+    # ---- 3b. styled streams: styles are zero-width (direct), Lean plainOps / replay with style operations vs the oracle
+    styled_stream_cases(ctx)
+
     # ---- 4. the specification the theorems are stated with == the tracker used for direct evaluation
     for cfg, pops, spins in spec_batch:
         r = spec_case(ctx, cfg, pops, spins)
@@ -918,6 +1027,9 @@ def run(ctx):
             continue
         wf, P, F = r
         ctx.case("live_spec", [enc_cfg(cfg, spins, bare=0), cfg.enc_init(), enc_ops(cfg, pops)], _SpecAnswer(wf, P, F, cfg.kind), shape=f"{cfg.kind}:wf{int(wf)}")
+        if cfg.kind != "progress" and cfg.overflow != "visible":
+            # crop / ellipsis: the frame-height clauses of wf are automatic (`wfOps_of_crop`): wfNoFit == wf == the tracker's wf
+            ctx.case("live_nofit", [enc_cfg(cfg, spins, bare=0), cfg.enc_init(), enc_ops(cfg, pops)], enc_bool(wf) + ";" + enc_bool(wf), shape=f"{cfg.kind}:{cfg.overflow}:wf{int(wf)}")
     ctx.flush()
 
     for cfg, pops, spins in specm_batch + [(c, prepare(c, o), "") for c, o in corpus() if c.kind != "status"]:
@@ -966,7 +1078,7 @@ def run(ctx):
         "every session start;body;stop with body over a per-kind alphabet (prints, refresh, update to growing/shrinking/empty/"
         "screen-filling/too-tall frames, task add/advance/hide/show/remove, redundant start) up to length %d, for Live/Progress/Status x "
         "transient x crop/ellipsis/visible x screen sizes; seeded random histories up to 40 operations (sessions, and arbitrary ones with "
-        "restarts and injected faults); with-blocks with an exception at every render-call index and every block position; "
+        "restarts and injected faults); every print / log option variant x text class x display kind x transient (1b); with-blocks with an exception at every render-call index and every block position; "
         "distinct = distinct canonical requests (configuration + history)" % depth
     )
 
@@ -1037,7 +1149,14 @@ MANIFEST = {
     "fault predicate over render-call indices, every body, every raise position: hook depth, sys.stdout/sys.stderr proxies and restore slots, "
     "started flag and cursor visibility are restored and a body exception leaves the block), init_balanced / run_balanced, "
     "stream_writes_print_complete_lines (the redirected streams hand the console the complete lines of the character stream, however it was "
-    "chunked into writes), progress_row_truncation (an over-wide Progress row is cut as Text.truncate of the C05 Text model cuts it). "
+    "chunked into writes), progress_row_truncation (an over-wide Progress row is cut as Text.truncate of the C05 Text model cuts it); "
+    "styled output (deepening 4): styles_are_zero_width (replaying a stream and replaying its style-free normal form plainOps — SGR / OSC 8 "
+    "dropped, adjacent text runs merged — leave the same rows, cursor and cursor visibility from every screen), and live_screen_styled / "
+    "live_screen_sessions_styled / cursor_visible_after_stop_styled (the screen theorems for EVERY stream whose plainOps is that of the model's "
+    "emission, i.e. print(style=...) and styles splitting a line are inside the statement; the hypothesis is exactly what live_run compares); "
+    "live_screen_crop / cursor_never_above_region_crop (Live / Status with vertical_overflow crop or ellipsis: the screen theorem with NO hypothesis "
+    "on frame heights — wfOpsNoFit = wfOps without the fits / flushFits clauses; only stop changes the overflow mode, step_overflow; tied by "
+    "live_nofit: Lean wfNoFit == wf == the tracker's wf on ~280 crop / ellipsis sessions per quick run). "
     "The theorems hold for the repaired code "
     "variants; machine-checked witnesses (decide) show the code as found breaks them: old_bare_print_leaves_remnant (F19), old_progress_start_leaks, "
     "old_restart_erases_printed_lines, old_transient_empty_frame_leaves_blank_line, old_pending_text_flushed_after_last_frame, "
@@ -1049,12 +1168,25 @@ MANIFEST = {
     "text, console resize, Progress.update/reset/track, wide characters, files / dumb terminals / disabled Progress), with-blocks with an exception "
     "at every render-call index and every block position, Lean replay vs Python screen oracle, Lean wf/printed/lastFrame and "
     "wfM/finished/liveFrameOf vs an independent Python tracker; and the theorems' executable statements evaluated on rich's own output after "
-    "every operation (plus, for a Live on a file: the file holds the printed lines and, once, the last frame).",
+    "every operation (plus, for a Live on a file: the file holds the printed lines and, once, the last frame). Print / log OPTION variety "
+    "(round-g gap, Segment.apply_style dropping is_control on the style= path): 37 ways of printing (lib_live.PRINT_HOWS: style= as str / Style / on a "
+    "renderable / with several objects, justify right / center / full, end='\\n\\n' and other ends, soft_wrap, crop=False, no_wrap, overflow "
+    "ellipsis / fold, markup / highlight / emoji toggles, sep, console.log(style= / justify= / several objects), console.out(+style), console.rule "
+    "(title, none, align / characters, style)) x 8 text classes (short, width-2, width, over the width with and without spaces, 2*width+3, "
+    "double-width beyond the edge, markup+emoji+highlightable, two lines) x Live / Progress with three tasks / Status x transient, with and without a "
+    "colour system: 1,480 bounded-exhaustive sessions per quick run (4,440 thorough, three screens) + the same variants in ~30% of the prints of "
+    "the seeded random histories and with-blocks; the model is told the lines a console WITHOUT display writes for the very same call, the screen "
+    "oracle (auto-wrap at the console width: an over-wide printed line occupies several rows) judges after every operation. term_plain (Lean "
+    "plainOps vs harness/term.py plain_ops) and term_replay with style operations on every styled real stream (up to 900 per run), plus the "
+    "direct evaluation 'styles are zero-width' on the Python oracle.",
     "note": "wf excludes (explicitly, decidably): visible-overflow frames taller than the screen (documented by rich as not clearable; Progress has "
     "no overflow handling at all), transient displays whose last frame leaves no free row (known finding transient-final-frame-fills-screen, no "
     "small repair: the one finding for which the check prints KNOWN-FINDING lines), prints that do "
     "not end in a new line (console.print(end='') shares its row with the first frame line and is erased with it: by design of the hook, see "
-    "Props/C10.lean), consoles that are not plain terminals (files, dumb terminals, Progress(disable=True): modelled and tied, outside the screen "
+    "Props/C10.lean), Console.line() / Console.control() called by user code under a display (they bypass the render hooks: console.line() "
+    "after a refresh leaves a frame remnant exactly as the as-found print() did — observed on real rich, NOT in the op grammar, Live.stop itself "
+    "relies on line() bypassing the hook), print(width=n) (re-renders the frame at width n; not generated), lines wider than the console in the "
+    "Lean terminal (no auto-wrap there; the harness oracle wraps), consoles that are not plain terminals (files, dumb terminals, Progress(disable=True): modelled and tied, outside the screen "
     "property). NOT excluded: text still pending in a FileProxy when stop is called — live_screen and live_screen_sessions are stated for the "
     "repaired stop (hypothesis flushFix = true, fix 4c3921f), which prints pending text above the last frame; wf only asks that the frames redrawn "
     "by those two prints fit the screen (flushFits). live_screen_sessions additionally needs resetShape = true; all screen theorems need "
